@@ -55,7 +55,7 @@ PROBES = ["probes/write_seen_through_alias", "probes/relink_dropped_handle", "pr
           "probes/ghost_ctor_aliases_user_array", "probes/operator_on_view", "probes/upcast_on_relink",
           "probes/collection_with_identical_fields", "probes/storage_reread", "probes/ghost_cell_write_via_full_array",
           "probes/inplace_operand_aliases_target", "probes/copy_via_deepcopy", "probes/copy_via_pickle",
-          "probes/single_precision_plan", "probes/collection_from_mapping"]
+          "probes/single_precision_plan", "probes/collection_from_mapping", "probes/interpolate_to_equal_grid"]
 COMPONENTS = {
     "real": ["pde.fields.base.FieldBase", "pde.fields.datafield_base.DataFieldBase", "ScalarField", "VectorField",
              "Tensor2Field", "FieldCollection", "pde.storage.memory.MemoryStorage (round trip of one frame)",
@@ -105,6 +105,7 @@ _OP_WEIGHTS = {
     "inplace": 9, "write": 20, "setitem": 5, "setdata": 4,
     "ghost": 3, "operator": 5, "apply": 3, "store": 2, "reread": 2, "drop": 2,
     "tconvert": 2, "ufunc": 2, "smooth": 2, "toscalar": 2, "dot": 2,
+    "interp_grid": 2, "trace": 1,
 }
 _CORE_KINDS = ("new", "write")
 # single-precision plans (float32 / complex64 fields): only operations without arithmetic, whose outcome does not depend on
@@ -208,6 +209,10 @@ def _gen_op(rng, kind, pc):
         return {"op": "smooth", "h": s(), "sigma": rng.choice([0.5, 1.0, 2.0]), "out": s() if rng.random() < 0.6 else None}
     if kind == "toscalar":
         return {"op": "toscalar", "h": s(), "how": rng.choice(["auto", "comp", "comp", "norm_squared"]), "i": rng.randrange(6)}
+    if kind == "interp_grid":
+        return {"op": "interp_grid", "h": s(), "g": rng.randrange(2)}
+    if kind == "trace":
+        return {"op": "trace", "h": s()}
     if kind == "dot":
         return {"op": "dot", "h": s(), "o": s(), "out": s() if rng.random() < 0.5 else None, "conj": rng.random() < 0.5,
                 "mat": rng.random() < 0.2}
@@ -1318,6 +1323,34 @@ class _Sim:
         r = self.call(lambda: h.obj.to_scalar(arg))
         n = self._register_result(r, "S", None, np.ascontiguousarray(pred), exact=exact)
         return f"toscalar {arg!r} {h.desc()} -> {n.desc()}"
+
+    def op_interp_grid(self, o):
+        """interpolate_to_grid onto the same or an equal grid: the values of the cell centres, in a NEW field."""
+        cart = self.plan["grid"].get("type") in ("unit", "cart")
+        # (rank-2 tensors cannot be interpolated - documented NotImplementedError - also not inside a collection)
+        h = self.pick(o["h"], lambda h: h.kind == "S" or (cart and (h.kind == "V" or (h.kind == "C" and all(m[0] != "T" for m in h.members)))))
+        if h is None:
+            return None
+        grid = self.grids[o["g"] % 2]
+        r = self.call(lambda: h.obj.interpolate_to_grid(grid))
+        # what is decided here is that the result is a new, independent object of the right class and layout; the VALUES of
+        # an interpolation are another property's business (non-finite neighbours legitimately spread NaN): adopt them
+        got = getattr(r, "data", None)
+        if not isinstance(got, self.np.ndarray) or got.shape != self.mvalid(h).shape:
+            self.stop("shape", f"interpolate_to_grid of {h.desc()} returned data of shape {getattr(got, 'shape', None)}")
+        n = self._register_result(r, h.kind, self._members0(h), self.np.array(got, copy=True).astype(self.M[h.buf].dtype, copy=False), exact=False)
+        self.probe("interpolate_to_equal_grid")
+        return f"interp_grid {h.desc()} -> {n.desc()}"
+
+    def op_trace(self, o):
+        np = self.np
+        h = self.pick(o["h"], lambda h: h.kind == "T")
+        if h is None:
+            return None
+        r = self.call(lambda: h.obj.trace())
+        pred = np.ascontiguousarray(np.trace(self.mvalid(h), axis1=0, axis2=1))
+        n = self._register_result(r, "S", None, pred, exact=False)
+        return f"trace {h.desc()} -> {n.desc()}"
 
     def op_dot(self, o):
         np = self.np
